@@ -3,8 +3,8 @@
 1. Model run: EdgeQuery.tla - the search of s2/edge_query.go as a state machine over an
    abstract index (cells on 1..6 faces, edges with integer distances, admissible cell bounds).
    TLC explores all small scenes x option combinations and proves the C08 statement on
-   termination; the same spec with AsImplemented = {"break"}, {"dup"}, {"capbound"} (the literal
-   behaviour of the pinned tree) must produce a counterexample (defect confirmation at model level).
+   termination; the same spec with AsImplemented = {"break"}, {"dup"}, {"capbound"}, {"nosat"} (the
+   literal behaviour of the pinned tree before the fix: commits) must produce a counterexample.
 2. Replay: Gen_EdgeQuery.tla generates concrete scenes in W1 (lattice points, polylines,
    triangles; targets point / edge / face cell / other index) with the exact, tie-aware expected
    ranks, limit membership and interior flags, and in W2 (grid rectangles and rows on several
@@ -67,16 +67,21 @@ def model_runs(ctx, rnd):
         ctx.tlc("EdgeQuery", model_cfg(faces, 0, 2, 3, 2, 2, 0, mrs, lims, [0, 1], [False], 2, 2, 1, []),
                 workers=8, timeout=300)
     else:
-        ctx.tlc("EdgeQuery", model_cfg([1, 2, 3, 4], 0, 2, 4, 2, 2, 1, [1, 2, 3, INF], [INF, 1, 0], [0, 1], [False, True],
+        faces = sorted(rnd.sample(range(1, 7), 3))
+        ctx.tlc("EdgeQuery", model_cfg(faces, 0, 2, 3, 2, 2, 0, [1, 2, INF], [INF, 1, 0], [0, 1], [False],
                                        2, 2, 2, []), workers=12, timeout=2400, heap="8g")
         # a two-level tree on one and two faces (split, children, the single-face covering rule)
-        ctx.tlc("EdgeQuery", model_cfg([2, 5], 1, 2, 3, 2, 2, 0, [1, 2, INF], [INF, 1, 0], [0, 1], [False], 2, 2, 2, []),
-                workers=12, timeout=2400, heap="8g")
+        faces = sorted(rnd.sample(range(1, 7), 2))
+        ctx.tlc("EdgeQuery", model_cfg(faces, 1, 2, 3, 2, 2, 0, [1, rnd.choice([2, INF])], [INF, rnd.choice([1, 0])],
+                                       [0, 1], [False], 2, 2, 1, []), workers=12, timeout=2400, heap="8g")
     # (a') structure only: every antichain of index cells on all six faces, the covering is what
     # initCovering is specified to produce (complete, tight, disjoint, sorted, <= 6 cells)
-    for (fan, depth, mc) in ([(2, 1, 4)] if q else [(2, 2, 4), (4, 1, 5), (3, 2, 3)]):
+    # (TLC's kSubset needs fewer than 63 tree nodes)
+    all6 = set(range(1, 7))
+    for (fcs, fan, depth, mc) in ([(all6, 2, 1, 4)] if q else
+                                  [(all6, 2, 2, 4), (all6, 4, 1, 5), (set(rnd.sample(range(1, 7), 3)), 3, 2, 4)]):
         ctx.tlc("EdgeQuery", vlib.cfg(constants=dict(
-            Faces=set(range(1, 7)), Fanout=fan, Depth=depth, MaxCells=mc, NEdges=1, DMax=1, NShapes=0,
+            Faces=fcs, Fanout=fan, Depth=depth, MaxCells=mc, NEdges=1, DMax=1, NShapes=0,
             MaxResultsSet={1}, LimitSet={INF}, MaxErrSet={0}, BruteSet="{FALSE}", MinEnq=2, MaxDisc=1, MaxSpan=1,
             AsImplemented="{}"), invariants=["CoveringOK"], constraints=["CellsOnly"]), workers=4 if q else 10, timeout=900)
     # (b) random walks over larger scenes: all six faces, two tree levels, three edges, IsDistanceLess options
@@ -87,9 +92,11 @@ def model_runs(ctx, rnd):
     ]
     for i, s in enumerate(sims[:1] if q else sims):
         ctx.tlc("EdgeQuery", model_cfg(*s, []), workers=1 if q else 4,
-                simulate="num=%d" % ((150, 60)[i] if q else 40000), depth=60, seed=ctx.seed * 10 + i, timeout=1800)
-    # (c) the pinned tree's behaviour, transcribed: TLC must find the counterexamples
-    for tag, s in [("break", sims[0]), ("dup", sims[0]), ("capbound", sims[0])]:
+                simulate="num=%d" % ((150, 60)[i] if q else 6000), depth=60, seed=ctx.seed * 10 + i, timeout=1800)
+    # (c) the behaviour of the pinned tree before the fix: commits e6edaf0, 3d5e407, 38223d4, 8676a07,
+    # transcribed: TLC itself must find the counterexamples (regression models; they show that the
+    # invariants are sensitive to exactly these defects)
+    for tag, s in [("break", sims[0]), ("dup", sims[0]), ("capbound", sims[0]), ("nosat", sims[0])]:
         r = ctx.tlc("EdgeQuery", model_cfg(*s, [tag]), workers=1, simulate="num=200000", depth=60,
                     seed=ctx.seed * 10 + 7, timeout=600, allow_violation=True, count=False)
         inv = [m.group(1) for ln in r.lines for m in [re.match(r"Error: Invariant (\w+) is violated", ln)] if m]
@@ -157,6 +164,9 @@ def w2_scene(rnd, g, nfaces, rows, bundle=False, nclouds=2):
             j0 = rnd.randint(0, n - 2)
             j1 = rnd.randint(j0 + 1, n)
         rects.add((((f * k + i0) * k + i1) * k + j0) * k + j1)
+        if f == faces[0] and (i0 > 0 or i1 < n) and (j0 > 0 or j1 < n):
+            # a second polygon around the first: targets inside both
+            rects.add((((f * k + max(i0 - 1, 0)) * k + min(i1 + 1, n)) * k + max(j0 - 1, 0)) * k + min(j1 + 1, n))
         # targets: inside, and anywhere
         tg.add((f * k2 + rnd.randint(4 * i0, 4 * i1 - 1)) * k2 + rnd.randint(4 * j0, 4 * j1 - 1))
     for _ in range(rows):
